@@ -49,6 +49,7 @@ class Extractor:
         self.facts = facts
         self.alts = []          # metadata of every alt encountered: dict(fn, ord, arms=[terms])
         self.maps = []          # (fn path, parser term, mapped fn callee record)
+        self.values = []        # value(CONST, parser): (fn path, parser term, the constant expression)
         self.loops = []         # metadata of many0/many1: dict(fn, ord, body)
         self._alt_ord = {}
         self._loop_ord = {}
@@ -290,6 +291,8 @@ class Extractor:
             p = self.parser(args[1] if path.endswith("::value") else args[0], env)
             if path.endswith("::map") and len(args) == 2:
                 self.maps.append({"fn": self.cur_fn, "term": p, "f": args[1], "line": e.get("ln")})
+            if path.endswith("::value") and len(args) == 2:
+                self.values.append({"fn": self.cur_fn, "term": p, "v": args[0], "line": e.get("ln")})
             return p
         if path == "nom::combinator::opt":
             return ("opt", self.parser(args[0], env))
